@@ -30,10 +30,10 @@ from ..core import pool_map
 
 MODULE = "chan/Tdl.tla"
 TOL = 1e-9
-LAWS = ["DiscLaw", "BlockLaw", "PosLaw", "SetLaw", "ChanLaw"]
+LAWS = ["DiscLaw", "BlockLaw", "PosLaw", "SetLaw", "ChanLaw", "FrameLaw"]
 DEVS = ["DiscRoundHalfUp", "DiscMergeKeepsLast", "DiscNoNormalise", "NoSkipBetweenBlocks", "PathlossNotInReported",
         "ShiftByTapIndex", "SwitchedNotTransposed", "TailDropped", "SliceBlockSizeFloorDiv", "MuSetPathlossNoneRaises",
-        "PathlossZeroIsNone"]
+        "PathlossZeroIsNone", "OutputBufferReused", "ArgumentScaledInPlace"]
 # real deviations of the code (the others are plausible regressions used to show the laws are not vacuous)
 REAL_DEVS = {"SetNumAntennasNoneRaises": "set_num_antennas(None, None) (documented: back to SISO) leaves the fading generator with shape "
                                          "(taps, None, None); the next transmission raises TypeError",
@@ -107,9 +107,10 @@ def round_half_even_q(qd):   # only used to decide which fft sizes a family may 
     return f + (1 if r > 2 or (r == 2 and f % 2 == 1) else 0)
 
 
-def base_cfg(cid, kind, prof, ant, users=(1, 1), pls=(), ops=(), variant=0, maxpos=12, ts="one"):
+def base_cfg(cid, kind, prof, ant, users=(1, 1), pls=(), ops=(), variant=0, maxpos=12, ts="one", ants=None, default_route=False):
+    ants = [list(a) for a in (ants or [ant])]
     return dict(id=cid, kind=kind, prof=PROFILES[prof] if isinstance(prof, str) else prof, pname=str(prof),
-                ant=list(ant), users=list(users), pls=[[[list(x) for x in row] for row in m] for m in pls],
+                ant=ants[0], ants=ants, default_route=default_route, users=list(users), pls=[[[list(x) for x in row] for row in m] for m in pls],
                 ops=list(ops), variant=variant, maxpos=maxpos, ts=ts, ntaps=0, qds=set(), pws=set(), q1=set())
 
 
@@ -119,10 +120,15 @@ def disc_cfg(cid, ntaps, qds, pws, q1, ts):
     return c
 
 
-def time_ops(n1, n2, gen=False):
+def time_ops(n1, n2, gen=False, extra=0):
+    """extra (rotation): 1 -> also the empty input, 2 -> also the real signal (integer / real dtypes)"""
     o = [op("T", 1, n1), op("T", 2, n1), op("T", 3, n1), op("T", 2, n2)]
     if gen:
-        o.append(op("Gen", 0, 2))
+        o.append(op("Gen", 0, 1 + (n1 + n2) % 2))      # n = 1 is called as generate_impulse_response()
+    if extra == 1:
+        o.append(op("T", 1, 0))
+    if extra == 2:
+        o.append(op("T", 4, n1))
     return o
 
 
@@ -165,7 +171,7 @@ def configs_for(tier, seed):
         # the SISO and the MIMO branches of the code are separate: every profile runs on SISO and on one MIMO family
         fams = ants if thorough else [ants[0], ants[1 + i % 3]]
         for j, ant in enumerate(fams):
-            ops = time_ops(2 + (i + j) % 2, 4 + (i + j) % 2, gen=(j == 0))
+            ops = time_ops(2 + (i + j) % 2, 4 + (i + j) % 2, gen=(j == 0), extra=((i + 2 * j) % 5 if not thorough else 1 + (i + j) % 2))
             ops += freq_ops(mem, rot + 3 * i + j, 4 if thorough else 3, lin=(j == 0), with8=thorough)
             if ant != (0, 0) or i % 4 == 0:
                 ops += dirs
@@ -202,6 +208,19 @@ def configs_for(tier, seed):
         add("mu", name, ant, users=users, variant=i, ops=ops,
             pls=[plm(users[0], users[1], i), eye(users[0], users[1])] + ([plm(users[0], users[1], 3 + i)] if thorough else []),
             maxpos=8 if not thorough else 12, ts="dec" if name in TIE_FREE and i % 2 else "one")
+    # --- default construction routes (generator only: the wrapper builds the flat channel) and antenna numbers changed
+    #     between transmissions (set_num_antennas after calls, (None, None) = back to SISO)
+    ant_ops = [op("Ant", n=1), op("Ant", n=2)]
+    add("su", "flat", (0, 0), ants=[(0, 0), (2, 1)], pls=su_pls[:2], default_route=True, variant=1, maxpos=6,
+        ops=[op("T", 1, 2), op("T", 4, 3), op("T", 1, 0), op("F", 2, 1, 2, "array", [0]), op("F", 1, 1, 4, "slice", sl(None, None, -3)),
+             op("PL", n=1), op("PL", n=2), op("PL", n=0)] + ant_ops + dirs)
+    add("mu", "flat", (0, 0), users=(2, 2), pls=[eye(2, 2)], default_route=True, variant=0, maxpos=6,
+        ops=[op("T", 1, 3), op("T", 4, 2), op("T", 2, 0), op("F", 1, 1, 4, "list", [1, 3]), op("PL", n=1), op("PL", n=0)] + dirs)
+    add("tdl", "two02", (0, 0), ants=[(0, 0), (1, 2)], variant=8, maxpos=8, ts="dy",
+        ops=[op("T", 1, 3), op("T", 2, 2), op("F", 1, 1, 4, "slice", sl(0, 4, 3)), op("Gen", 0, 1)] + ant_ops + dirs)
+    # --- multi-user, Kr != Kt, switched direction, every slice geometry (star)
+    add("mu", "two01", (0, 0), users=(2, 3), pls=[plm(2, 3, 1)], variant=1, maxpos=4,
+        ops=[op("F", 1 + q % 2, 1, 4, k, v) for q, (k, v) in enumerate(SEL4) if k == "slice"] + [op("PL", n=1)] + dirs)
     # --- every selection geometry on a cheap SISO channel (star: one call from the fresh object)
     sweep4 = [op("F", 1, 1, 4, k, v) for k, v in SEL4] + [op("F", 2, 2, 4, k, v) for k, v in SEL4[4:]]
     add("tdl", "two01", (0, 0), ops=sweep4 + [op("T", 1, 2)], variant=1, maxpos=10)
@@ -266,7 +285,7 @@ def tables(seed, tlen, nlinks=6, ntap=4, nant=3, nsig_users=3, maxn=8):
 
 
 def tla_cfg(c):
-    d = {k: v for k, v in c.items() if k not in ("pname", "ts", "variant", "none_route")}
+    d = {k: v for k, v in c.items() if k not in ("pname", "ts", "variant", "none_route", "default_route")}
     return d
 
 
@@ -360,6 +379,17 @@ def build_channel(c, ctable):
         ch = fading.TdlChannel(TableGen(ctable), **kw)
         ch.set_num_antennas(nr, nt)
         return ch
+    if c.get("default_route") and c["kind"] in ("su", "mu"):
+        # "only the fading generator was provided": the wrappers build a flat channel themselves (profile family `flat`)
+        if c["kind"] == "su":
+            ch = singleuser.SuMimoChannel(max(nr, nt), TableGen(ctable), Ts=ts) if mimo and v % 2 else \
+                singleuser.SuChannel(TableGen(ctable), Ts=ts)
+            if mimo:
+                ch.set_num_antennas(nr, nt)
+            return ch
+        kr, kt = c["users"]
+        n_arg = kr if kr == kt else (kr, kt)
+        return multiuser.MuMimoChannel(n_arg, nr, nt, TableGen(ctable), Ts=ts) if mimo else multiuser.MuChannel(n_arg, TableGen(ctable), Ts=ts)
     if c["kind"] == "su":
         if not mimo:
             return singleuser.SuChannel(TableGen(ctable), **kw)
@@ -383,33 +413,71 @@ def gval(a):
     """nested lists of exact values -> complex ndarray.  GRat triples <<re, im, den>>, or elements of Q(zeta_8)
     <<c0, c1, c2, c3, den>> = sum_j c_j exp(2 pi i j / 8) / den (the only trusted numeric step)"""
     a = np.array(a, dtype=float)
+    if a.size == 0:
+        return np.zeros(a.shape, dtype=complex)          # zero samples (empty input)
     if a.shape[-1] == 5:
         return a[..., :4].dot(ZETA8) / a[..., 4]
     return (a[..., 0] + 1j * a[..., 1]) / a[..., 2]
 
 
-def signal_for(c, csig, o, direction, length, step):
-    """the input array of call o: users x antennas x length (signal 3 = signal 1 + i signal 2)"""
-    nr, nt = c["ant"]
+REAL_DTYPES = [np.int64, np.float64, np.int32, np.float32, np.int8]
+
+
+def signal_for(c, ant, csig, o, direction, length, step):
+    """the input of call o: users x antennas x length (signal 3 = signal 1 + i signal 2, signal 4 = Re(signal 1)).
+    The VALUES are the specification's; the array FORM rotates with the step number (C / Fortran order, strided view of a
+    wider buffer, read-only, complex64, integer and real dtypes for the real signal, a list of per-user arrays for the
+    multi-user classes): the expected output does not depend on it."""
+    nr, nt = ant
     kr, kt = c["users"]
     inu = kr if direction else kt
     ina = (nr if direction else nt) or 1
     s = o["s"]
-    x = csig[0] + 1j * csig[1] if s == 3 else csig[s - 1]
-    x = np.array(x[:inu, :ina, :length], dtype=complex)
+    x = csig[0] + 1j * csig[1] if s == 3 else csig[0].real if s == 4 else csig[s - 1]
+    x = np.array(x[:inu, :ina, :length], dtype=complex if s != 4 else float)
     if c["kind"] != "mu":
         x = x[0]
-        if nr == 0:
-            return x[0]
-        if ina == 1 and step % 2 == 1:
-            return x[0]            # 1-D input is accepted for a single input antenna
-        return x
-    if nr == 0:
+        if nr == 0 or (ina == 1 and step % 2 == 1):
+            x = x[0]               # SISO, or 1-D input accepted for a single input antenna
+    elif nr == 0:
         x = x[:, 0, :]
         if inu == 1 and step % 2 == 1:
-            return x[0]
-        return x
+            x = x[0]
+    form = step % 5
+    if s == 4:
+        x = x.astype(REAL_DTYPES[step % len(REAL_DTYPES)])
+    elif form == 4 and c["kind"] != "mu":
+        x = x.astype(np.complex64)          # Gaussian integers are exact in single precision
+    if form == 1:
+        x = np.asfortranarray(x)
+    elif form == 2:
+        wide = np.zeros(x.shape[:-1] + (2 * x.shape[-1] + 1,), dtype=x.dtype)
+        wide[..., 1::2] = x
+        x = wide[..., 1::2]                 # non-contiguous view
+    elif form == 3:
+        x = x.copy()
+        x.setflags(write=False)
+    elif form == 4 and c["kind"] == "mu" and x.ndim >= 2 and x.shape[0] > 1:
+        x = [np.array(row) for row in x]    # one array per transmitter
     return x
+
+
+def snapshot(v):
+    """a deep copy of an argument / result for later bit-exact comparison"""
+    if isinstance(v, list) or (isinstance(v, np.ndarray) and v.dtype == object):
+        return [np.array(a, copy=True) for a in v]
+    return np.array(v, copy=True)
+
+
+def unchanged(v, snap):
+    if isinstance(snap, list):
+        return len(v) == len(snap) and all(unchanged(a, b) for a, b in zip(v, snap))
+    v = np.asarray(v)
+    return v.shape == snap.shape and v.dtype == snap.dtype and bool(np.array_equal(v, snap))
+
+
+def arrays_of(v):
+    return list(v) if isinstance(v, list) or (isinstance(v, np.ndarray) and v.dtype == object) else [v]
 
 
 def selection_for(o):
@@ -484,7 +552,13 @@ def run_path(job):
         ch = build_channel(c, ctable)
     except Exception as ex:
         return 0, [{"step": -1, "what": f"constructing the channel raised {type(ex).__name__}: {ex}"}], []
-    siso = c["ant"][0] == 0
+    kept = []          # (step, what, live object, snapshot): arguments and results handed over so far (frame conditions)
+
+    def frame_check(i):
+        for (j, name, live, snap) in kept:
+            if not unchanged(live, snap):
+                return (f"{name} of step {j} changed during step {i}" if j != i else f"{name} was modified by the call")
+        return None
     if c.get("none_route") and (ch.num_rx_antennas != -1 or ch.num_tx_antennas != -1):
         # set_num_antennas(None, None) did not bring the channel back to SISO (num_*_antennas report -1 for SISO)
         return 0, [], [{"id": "SetNumAntennasNoneRaises", "step": 0,
@@ -502,8 +576,18 @@ def run_path(job):
         o, exp, pre = e["op"], e["exp"], e["pre"]
         k = o["k"]
         what = None
+        ant = c["ants"][pre["ai"] - 1]
+        siso = ant[0] == 0
         try:
-            if k == "Dir":
+            if k == "Ant":
+                nr_, nt_ = c["ants"][o["n"] - 1]
+                if nr_ == 0:
+                    ch.set_num_antennas(None, None)
+                else:
+                    ch.set_num_antennas(nr_, nt_)
+                if (ch.num_rx_antennas, ch.num_tx_antennas) != ((nr_, nt_) if nr_ else (-1, -1)):
+                    what = f"after set_num_antennas the channel reports {ch.num_rx_antennas} x {ch.num_tx_antennas} antennas"
+            elif k == "Dir":
                 ch.switched_direction = bool(o["n"])
                 if ch.switched_direction != bool(o["n"]):
                     what = "switched_direction does not read back"
@@ -519,16 +603,23 @@ def run_path(job):
                     whole = all(v.denominator == 1 for row in m for v in row)
                     ch.set_pathloss(np.array(m, dtype=int) if (whole and i % 2) else np.array(m, dtype=float))
             elif k == "Gen":
-                ch.generate_impulse_response(o["n"])
+                if o["n"] == 1:
+                    ch.generate_impulse_response()          # default: one sample
+                else:
+                    ch.generate_impulse_response(o["n"])
                 what = check_ir(ch.get_last_impulse_response(), exp["ir"][0][0], exp["delays"], exp["mem"], siso, o["n"])
             elif k in ("T", "F"):
                 want = gval(exp["y"])               # out users x out antennas x length
                 length = o["n"] if k == "T" else o["n"] * len(exp["sel"])
-                x = signal_for(c, csig, o, pre["dir"], length, i)
+                x = signal_for(c, ant, csig, o, pre["dir"], length, i)
+                kept.append((i, "the input array", x, snapshot(x)))
                 if k == "T":
                     y = ch.corrupt_data(x)
                 else:
                     y = ch.corrupt_data_in_freq_domain(x, o["fft"], selection_for(o))
+                kept.append((i, "the returned signal", y, snapshot(y)))
+                if any(np.shares_memory(a, b) for a in arrays_of(y) for b in arrays_of(x)):
+                    what = "the returned signal shares memory with the input array"
                 if c["kind"] == "mu":
                     if len(y) != want.shape[0]:
                         what = f"{len(y)} receivers in the output, expected {want.shape[0]}"
@@ -548,11 +639,17 @@ def run_path(job):
                                 f"(expected shape {w.shape})")
                 if what is None:
                     for (r, t) in links_of(c):
-                        d = check_ir(read_ir(c, ch, r, t), exp["ir"][r][t], exp["delays"], exp["mem"], siso, o["n"],
+                        ir = read_ir(c, ch, r, t)
+                        d = check_ir(ir, exp["ir"][r][t], exp["delays"], exp["mem"], siso, o["n"],
                                      fr=exp["fr"][r][t] if k == "F" else None, fft=o["fft"] if k == "F" else None)
                         if d:
                             what = f"link rx{r} tx{t}: {d}"
                             break
+                        kept.append((i, f"the reported response of link rx{r} tx{t}", ir.tap_values_sparse, snapshot(ir.tap_values_sparse)))
+                        if any(np.shares_memory(a, ir.tap_values_sparse) for a in arrays_of(y)):
+                            what = "the returned signal shares memory with the reported response"
+            if what is None:
+                what = frame_check(i)
         except Exception as ex:
             desc = f"{k} raised {type(ex).__name__}: {ex}"
             if k == "F" and is_slice_defect(e) and isinstance(ex, (ValueError, ZeroDivisionError)):
@@ -626,7 +723,7 @@ def run_disc(job):
 
 
 # ------------------------------------------------------------------------------ planning
-ROOT = {"gpos": 0, "dir": False, "pl": 0, "has": False}
+ROOT = {"gpos": 0, "dir": False, "pl": 0, "has": False, "ai": 1}
 
 
 def plan_paths(c, edges, rng, mode):
@@ -697,7 +794,8 @@ DEV_EXPECT = {  # flag -> (violated property, LAWFAIL name or None)
     "NoSkipBetweenBlocks": ("PosLaw", None), "PathlossNotInReported": ("ChanLaw", "Reported"),
     "ShiftByTapIndex": ("ChanLaw", "Conv"), "SwitchedNotTransposed": ("ChanLaw", "Conv"), "TailDropped": ("ChanLaw", "Len"),
     "SliceBlockSizeFloorDiv": ("BlockLaw", None), "MuSetPathlossNoneRaises": ("SetLaw", None),
-    "PathlossZeroIsNone": ("ChanLaw", "Conv")}
+    "PathlossZeroIsNone": ("ChanLaw", "Conv"), "OutputBufferReused": ("FrameLaw", "EarlierResultsUnchanged"),
+    "ArgumentScaledInPlace": ("FrameLaw", "ArgumentsUnchanged")}
 
 
 def dev_models(table, signals):
@@ -707,7 +805,11 @@ def dev_models(table, signals):
     mu = base_cfg(1, "mu", "two01", (0, 0), users=(2, 2), pls=[[[(1, 2), (1, 3)], [(2, 3), (1, 1)]], [[(1, 1), (0, 1)], [(0, 1), (1, 1)]]],
                   ops=ops)
     dc = disc_cfg(1, 3, [0, 1, 2, 5, 6], [(1, 1), (3, 1)], [0, 2, 6], "dy")
-    return {d: [dc] if d.startswith("Disc") else [mu] if d.startswith("Mu") else [su] for d in DEVS}
+    # a SISO single-user configuration is enough (and much cheaper) for everything that is not about antenna indices
+    small = base_cfg(1, "su", "two02", (0, 0), pls=[[[(1, 2)]], [[(0, 1)]]], maxpos=8,
+                     ops=[op("T", 1, 2), op("T", 2, 2), op("F", 1, 2, 4), op("F", 2, 1, 4, "slice", sl(0, 4, 3)), op("PL", n=1), op("PL", n=2)])
+    return {d: [dc] if d.startswith("Disc") else [mu] if d.startswith("Mu") else [su] if d == "SwitchedNotTransposed" else [small]
+            for d in DEVS}
 
 
 def dev_runs(table, signals):
@@ -729,7 +831,7 @@ def account_devs(ctx, res):
         ctx.notes.setdefault("deviations_refuted_by_model", {})[d] = prop + (f".{law}" if law else "")
 
 
-ACTION_OF = {"T": "Transmit", "F": "TransmitFreq", "Gen": "GenerateIR", "Dir": "SetDirection", "PL": "SetPathloss",
+ACTION_OF = {"T": "Transmit", "F": "TransmitFreq", "Gen": "GenerateIR", "Dir": "SetDirection", "PL": "SetPathloss", "Ant": "SetAntennas",
              "Disc": "DiscretizeCase"}
 
 
